@@ -11,9 +11,22 @@ def check(run, replay):
     args = ["-enc", src, "-out", out]
     if not replay and not thorough:
         # every complete behaviour of the bounded model is exported (a few thousand); the quick tier replays a seeded stride
-        args += ["-budget", "150s", "-stride", "7", "-offset", str(run.seed % 7)]
+        args += ["-budget", "100s", "-stride", "7", "-offset", str(run.seed % 7)]
     run.run_driver(binary, args, timeout=5000)
     r = json.load(open(out))
+    if not replay:
+        # the behaviours with a key-less peer write (a smaller table): all of them, within a budget
+        outp = os.path.join(run.tmp, "cres-peer.json")
+        argsp = ["-enc", os.path.join(run.tmp, "crypto-peer.ndjson"), "-out", outp]
+        if not thorough:
+            argsp += ["-budget", "80s", "-stride", "2", "-offset", str(run.seed % 2)]
+        run.run_driver(binary, argsp, timeout=5000)
+        rp = json.load(open(outp))
+        for k, v in rp.items():
+            if isinstance(v, int):
+                r[k] = r.get(k, 0) + v
+            elif isinstance(v, list):
+                r[k] = (r.get(k) or []) + v
     if r.get("harness_errors"):
         raise vlib.Infra("cryptorun: " + r["harness_errors"][0])
     viol = [v for v in (r.get("violations") or []) if v["property"] == "C11"]
